@@ -286,6 +286,8 @@ def ref_step0(env, ins, seed, kind):
             kw = {"axis": ins.get("axis", 0), **kw}
         if op != "flatten" and n == 1:
             raise Invalid()          # reduced dimensions of size 1 are outside the property (one argument = reduce INSIDE the array)
+        if kind == "xarray" and op in ("stack", "flatten") and ("dim" not in kw or kw["dim"] in (a.inames or [])):
+            raise Invalid()          # XArrayBackend.stack wants a name for the new internal dimension, and a NEW one
         batchable = fname in ("sum", "prod", "min", "max", "concat") or getattr(USER.get(fname), "batchable", False)
         if op not in ("mean", "std") and 1 < bs < n and not batchable:
             raise Invalid()
@@ -1153,6 +1155,11 @@ class Gen:
         ops += ["stack", "concat", "flatten", "expand", "expand"]
         return ops
 
+    def same_payload_layout(self, r):
+        """a second operand from a fresh source combines with r element by element: same internal shape and, for
+        xarray payloads (which align by NAME), the same internal dimension names"""
+        return r.ishape == tuple(self.ishape) and (self.kind != "xarray" or r.inames == [f"i{j}" for j in range(len(self.ishape))])
+
     def step(self, op=None, cur=None):
         rng = self.rng
         if cur is None:
@@ -1337,7 +1344,7 @@ class Gen:
         # operations with a second operand
         if op == "binA":
             dims = [[d, list(r.coords[d]) if rng.random() < 0.7 else gen_coords(rng, r.size(d), "int10")] for d in r.dims]
-            if any(isinstance(l, tuple) for _, c in dims for l in c) or not all(r.indexed.values()) or r.ishape != tuple(self.ishape):
+            if any(isinstance(l, tuple) for _, c in dims for l in c) or not all(r.indexed.values()) or not self.same_payload_layout(r):
                 return False
             b = self.source(dims)
             if rng.random() < 0.5 and not self.sem:
@@ -1346,7 +1353,7 @@ class Gen:
             f = rng.choice(["add", "subtract", "multiply", "divide"] if not self.sem else ["add", "subtract", "multiply"])
             return self.push({"op": "binA", "a": cur, "b": b, "f": f}, ts + self.tsz[b] + 1)
         if op == "join":
-            if any(isinstance(l, tuple) for c in r.coords.values() for l in c) or not all(r.indexed.values()) or r.ishape != tuple(self.ishape):
+            if any(isinstance(l, tuple) for c in r.coords.values() for l in c) or not all(r.indexed.values()) or not self.same_payload_layout(r):
                 return False
             if r.dims and rng.random() < 0.5:
                 d = rng.choice(r.dims)          # along an existing dimension: new labels
@@ -1434,10 +1441,10 @@ SESSION_FAMILIES = {"numpy": ["stack", "stack", "flatten", "expand", "expand", "
                     "xarray": ["expand", "expand", "stack", "flatten", "concat", "named", "mean", "select", "iselect", "transform", "map", "binC"]}
 
 
-def gen_session(rng, seed):
+def gen_session(rng, seed, kind=None):
     """what a script does: ONE source action (and what was derived from it) used for several calls, mostly of the same
     method with other arguments, options left to their defaults or kept in one object; every result is checked"""
-    kind = "xarray" if rng.random() < 0.12 else "numpy"
+    kind = kind or ("xarray" if rng.random() < 0.12 else "numpy")
     g = Gen(rng, seed, kind, False)
     g.session = True
     if kind == "numpy":
